@@ -112,7 +112,7 @@ class InputFileScenario(BaseScenario):
     prop = "C15"
 
     def __init__(self):
-        self.expected_probes = ["set_accepted", "set_rejected", "set_all_accepted", "set_all_rejected", "good_after_bad", "none_value", "switch_changed",
+        self.expected_probes = ["set_accepted", "set_rejected", "set_all_accepted", "set_all_rejected", "good_after_bad", "none_value", "none_allowed", "none_refused", "switch_changed",
                                 "parent_changed", "one_of_all_none", "ws_closed_validation", "twin_unbuildable", "is_value_toggle"]
         self.rule = ("one evaluation = one seeded history of validation calls (set_data_value, data = {...}, validators.validate, validators.validate_data) with valid "
                      "and invalid values on ONE InputFile over a ui.json whose switches (optional/enabled, group/groupOptional, dependency/dependencyType, isValue, parent, "
@@ -126,7 +126,8 @@ class InputFileScenario(BaseScenario):
         switches = {"i_opt_enabled": rng.random() < 0.5, "dat_optional": rng.random() < 0.6, "dat_enabled": rng.random() < 0.6, "pg_enabled": rng.random() < 0.5,
                     "flag": rng.random() < 0.5, "dep_type": rng.choice(["enabled", "disabled"]), "dep_optional": rng.random() < 0.4, "dep_enabled": rng.random() < 0.5,
                     "dep_on_optional": rng.random() < 0.3, "group_enabled": rng.random() < 0.5, "g2_optional": rng.random() < 0.5, "g2_enabled": rng.random() < 0.5,
-                    "g2_dependency": rng.random() < 0.3, "one_a_enabled": rng.random() < 0.6, "one_b_enabled": rng.random() < 0.6, "update_enabled": rng.random() < 0.8, "one_open": rng.random() < 0.5}
+                    "g2_dependency": rng.random() < 0.45, "one_a_enabled": rng.random() < 0.6, "one_b_enabled": rng.random() < 0.6, "update_enabled": rng.random() < 0.8, "one_open": rng.random() < 0.5,
+                    "g2_dep_type": rng.choice(["enabled", "disabled"]), "g2_both": rng.random() < 0.6}
         include = sorted(k for k in ["s", "i_opt", "f", "flag", "choice", "obj", "dat", "pg", "dv", "dep", "g1", "g2", "one"] if rng.random() < 0.7)
         return {"gc": rng.choices(["none", "op"], [5, 5])[0], "gc_density": 0.3, "h5repack": "absent", "n_ops": rng.choice([4, 8, 12, 20]), "switches": switches,
                 "include": include, "promotion": rng.random() < 0.85}
@@ -199,8 +200,8 @@ class InputFileScenario(BaseScenario):
         if "g2" in inc:
             ui["g2"] = {"label": "g2", "value": 2, "group": "grp"}
             if sw["g2_dependency"]:
-                ui["g2"].update({"dependency": "flag", "dependencyType": "enabled"})
-            elif sw["g2_optional"]:
+                ui["g2"].update({"dependency": "flag", "dependencyType": sw.get("g2_dep_type", "enabled")})
+            if sw["g2_optional"] and (sw.get("g2_both") or not sw["g2_dependency"]):
                 ui["g2"].update({"optional": True, "enabled": sw["g2_enabled"]})
         if "one" in inc:
             ui["one_a"] = {"label": "one_a", "value": "x", "optional": True, "enabled": sw["one_a_enabled"]}
@@ -415,6 +416,7 @@ class InputFileScenario(BaseScenario):
         typeless = [k for k in judged_keys if isinstance(aged.ui_json.get(k), dict) and aged.ui_json[k].get("value") is None
                     and not any(m in aged.ui_json[k] for m in ("choiceList", "meshType", "parent", "isValue", "fileType", "groupType"))]
         ver_v = None
+        sweep = kind == "set" and r.random() < 0.35
         if kind == "set":
             # second entry point for the same question: a fresh InputValidation on the current form, asked directly
             # (rules of the key, the parent named by the rule resolved from the current data, one_of left to whole-data calls)
@@ -451,6 +453,31 @@ class InputFileScenario(BaseScenario):
             raise Violation("C15", "verdict_differs", f"{what}: the aged object says {ver_a[0]} ({ver_a[1]}); a fresh InputValidation on the same form, asked directly for "
                             f"this key and value, says {ver_v[0]} ({ver_v[1]})",
                             {"api": kind, "via": "validators", "aged": "accept" if ver_a[0] == "accept" else "reject", "stale_switch": bool(stale), "one_of": False})
+        if ver_v is not None and value is None and key in ("i_opt", "dat", "pg", "dep", "g1", "g2", "s", "f", "choice", "obj") and key in aged_form:
+            # reference model for the switch hierarchy that decides whether None is allowed (fresh object: no staleness involved)
+            sim.oracle("none_rule_model")
+            needs = ref_requires(aged_form, key)
+            sim.probe("none_allowed" if not needs else "none_refused")
+            if needs and ver_v[0] == "accept":
+                raise Violation("C15", "none_accepted", f"{what}: a fresh validation accepts None although the form's switches require a value "
+                                f"({ {m: aged_form[key].get(m) for m in ('optional', 'enabled', 'group', 'dependency', 'dependencyType') if m in aged_form[key]} })", {"key": key})
+            if not needs and ver_v[0] != "accept":
+                raise Violation("C15", "none_refused", f"{what}: a fresh validation refuses None ({ver_v[0]}) although the form's switches require no value "
+                                f"({ {m: aged_form[key].get(m) for m in ('optional', 'enabled', 'group', 'dependency', 'dependencyType') if m in aged_form[key]} })", {"key": key})
+        if ver_v is not None and sweep:
+            # the same model asked for every form of the current switch state (each history reaches other combinations)
+            sim.probe("none_sweep")
+            for k2 in ("i_opt", "dat", "pg", "dep", "g1", "g2", "s", "f", "choice", "obj"):
+                rules2 = (ref_holder["r"].validations or {}).get(k2)
+                if k2 not in aged_form or rules2 is None:
+                    continue
+                rules2 = {m: v for m, v in rules2.items() if m in ("optional", "required", "types")}
+                got = verdict(lambda k2=k2, rules2=rules2: ref_holder["r"].validators.validate(k2, None, rules2))
+                needs = ref_requires(aged_form, k2)
+                if needs == (got[0] == "accept"):
+                    sw = {m: aged_form[k2].get(m) for m in ("optional", "enabled", "group", "dependency", "dependencyType") if m in aged_form[k2]}
+                    raise Violation("C15", "none_accepted" if needs else "none_refused", f"validate({k2!r}, None) on a fresh validation of the current form says {got[0]} although the "
+                                    f"form's switches {'require a' if needs else 'require no'} value ({sw})", {"key": k2})
         if ver_t is None:
             ver_t = ver_v if ver_v is not None else ver_a     # nothing fresh to compare with: only the rejection check below applies
         if "obj" in changed:
@@ -500,6 +527,29 @@ class InputFileScenario(BaseScenario):
             return "accepted"
         sim.probe("set_rejected" if kind == "set" else "set_all_rejected" if kind == "set_all" else "validate_rejected")
         return "rejected:" + ver_a[0]
+
+
+def ref_requires(ui, key):
+    """Reference model of the documented switch hierarchy (ui_json/utils.requires_value docstring): a group-optional
+    group that is off needs nothing; otherwise a dependency decides (an active one defers to the parameter's own
+    optional switch), otherwise the optional switch; a plain parameter needs a value."""
+    form = ui[key]
+    if not (isinstance(form, dict) and "label" in form and "value" in form):
+        return True
+
+    def own():
+        return bool(form.get("enabled", True)) if "optional" in form else True
+
+    if "group" in form:
+        heads = [f for f in ui.values() if isinstance(f, dict) and f.get("group") == form["group"] and "groupOptional" in f]
+        if heads and heads[0]["groupOptional"] and not heads[0].get("enabled", True):
+            return False
+    if "dependency" in form:
+        other = ui[form["dependency"]]
+        state = bool(other.get("enabled" if other.get("optional", False) else "value", True))
+        active = state if form.get("dependencyType", "enabled") == "enabled" else not state
+        return own() if active else False
+    return own()
 
 
 IF_DOMAIN_KEYS = {"s", "i_opt", "f", "flag", "choice", "obj", "dat", "pg", "dv", "dep", "g1", "g2", "one_a", "one_b", "title", "run_command", "conda_environment_boolean"}
